@@ -536,6 +536,8 @@ func (g *vfC03Gen) params(c *vfC03Case) {
 	}
 	if g.chance(0.5) {
 		c.Pagesize = g.pick(1, 100, 255, 256, 5000, 65535, 65536, 2147483647)
+	} else if g.chance(0.4) {
+		c.Pagesize = g.pick(-1, -2, -5000, -2147483648) // "a value <= 0 disables paging"
 	}
 	if g.chance(0.4) {
 		c.Pstate = g.bytes(g.pick(1, 2, 20, 300))
